@@ -62,6 +62,19 @@ CLAIMED = {
               "Frame/Address contracts, z3 QF_BV",
     note=TB + "; constructor and decoder bodies are inlined per class, Frame/Address/Instance through contracts; same text is "
          "derived from structural equality, not proved on strings"),
+ "C06": dict(
+    category="proof",
+    text="For each of the 34 response classes reachable from a live command class and each bus outcome (None, "
+         "BackwardFrame(b), BackwardFrameError(b), b symbolic) the real raw_value, value, __str__, status, error and "
+         "__getattr__ (every named bit plus an unknown name) are verified against specification functions written from the "
+         "property: pass-through, yes/no, numeric with MASK, bitmap names and bits, generic/enumerated responses with "
+         "MissingResponse/ResponseError/ValueError, and str() never raising MissingResponse/ResponseError; constructors are "
+         "proved to raise TypeError for every non-frame argument kind. The metaclass-built bit dictionaries are checked "
+         "exhaustively against the declared bit lists.",
+    design_ref="DESIGN.md 6 (C06)",
+    technique="contract-based deductive verification: refinement of each real response method against a spec function, "
+              "z3 QF_BV",
+    note=TB + "; Frame through contracts; text content unspecified (str proved total)"),
 }
 
 NA_REASON = "check under construction in this round (no obligations built yet); see DESIGN.md section 6"
